@@ -170,7 +170,7 @@ META["C19"] = {
                  "pairs:IoContractCompound:outputs-extra", "pairs:Var:name", "triples", "hash-agree:IoContract"],
     "assumptions": [TB, "permuted interface lists and permuted term order may compare either way (the property only "
                     "fixes genuine differences and identical copies) but must stay symmetric and hash-coherent"],
-    "soft_s": {"quick": 200, "thorough": 2000},
+    "soft_s": {"quick": 900, "thorough": 2000},
 }
 MANIFEST_TEXT["C19"] = {
     "technique": RM + "reference structural equality over single-field edits; ==, hash and copy of the real classes observed on every pair",
@@ -198,7 +198,7 @@ META["C09"] = {
                  "accepted-feature:repeated-variable", "small_shape_cases", "history-reparse"],
     "assumptions": [TB, "the written relation is evaluated by pvm's own tree evaluator (If-encoded absolute values, "
                     "exact rationals); a convex relation that the grammar rejects is not a violation"],
-    "soft_s": {"quick": 200, "thorough": 3000},
+    "soft_s": {"quick": 900, "thorough": 3000},
 }
 MANIFEST_TEXT["C09"] = {
     "technique": RM + "grammar-directed string generation, real parser executed, exact z3 equivalence of parsed inequalities and the written relation over all reals",
@@ -219,7 +219,7 @@ META["C12"] = {
     "required": ["events:optimize", "events:get_variable_bounds", "truth:finite", "truth:unbounded",
                  "truth:infeasible", "core_cases"],
     "assumptions": [TB, "systems that are infeasible but become feasible when relaxed by 1e-3 are not judged"],
-    "soft_s": {"quick": 200, "thorough": 3000},
+    "soft_s": {"quick": 900, "thorough": 3000},
 }
 MANIFEST_TEXT["C12"] = {
     "technique": RM + "optimize / get_variable_bounds executed on generated contracts, linprog boundary recorded, result compared with an exact rational LP optimum (z3 Optimize)",
@@ -240,7 +240,7 @@ META["C08"] = {
                  "reach:returned:same_iface", "reach:returned:shared_both", "reach:returned:corpus",
                  "outcome:clash:IncompatibleArgsError"],
     "assumptions": [NUM, TB],
-    "soft_s": {"quick": 200, "thorough": 2500},
+    "soft_s": {"quick": 900, "thorough": 2500},
 }
 MANIFEST_TEXT["C08"] = {
     "technique": RM + "merge executed in both operand orders under a recording wrapper; exact z3 equivalence of the result with the conjunction of the operands",
@@ -264,7 +264,7 @@ META["C15"] = {
                  "reach:compose:overlap:identical", "reach:compose:overlap:scaled"],
     "assumptions": [NUM, TB, "operand guarantees are those of the constructed operands (after the constructor's "
                     "simplification against their own assumptions)"],
-    "soft_s": {"quick": 200, "thorough": 2500},
+    "soft_s": {"quick": 900, "thorough": 2500},
 }
 MANIFEST_TEXT["C15"] = {
     "technique": RM + "compose_tactics / merge executed under wrappers; per operand guarantee an exact z3 entailment query against the result",
@@ -299,7 +299,7 @@ META["C14"] = {
                     "wrong Python type are not well-formed arguments and are not generated"],
     "exhaustive": False,
     "exhaustive_note": "the dictionary-fault sub-space (one valid entry per representation) is enumerated completely",
-    "soft_s": {"quick": 240, "thorough": 3000},
+    "soft_s": {"quick": 900, "thorough": 3000},
 }
 MANIFEST_TEXT["C14"] = {
     "technique": RM + "exception-type classifier on every public entry point over all workloads + adversarial shapes; exhaustive single-field faults of contract dictionaries",
@@ -333,7 +333,7 @@ META["C06"] = {
                     "as sets (duplicates and overlap are the invariant's business)"],
     "exhaustive": False,
     "exhaustive_note": "thorough tier: the 4-variable option grid and the 5-variable default grid are enumerated completely",
-    "soft_s": {"quick": 240, "thorough": 3000},
+    "soft_s": {"quick": 900, "thorough": 3000},
 }
 MANIFEST_TEXT["C06"] = {
     "technique": RM + "icontract class invariant on IoContract + postconditions recomputing the prescribed interface and the must-reject predicate; bounded-exhaustive interface topologies",
@@ -360,7 +360,7 @@ META["C07"] = {
                  "events:contract-level-irredundancy"],
     "assumptions": [NUM, TB, "a kept constraint counts as redundant only when implied with a margin of "
                     "1e-4*(1+|c|); systems without an interior point at margin 1e-3 may raise or return"],
-    "soft_s": {"quick": 200, "thorough": 3000},
+    "soft_s": {"quick": 900, "thorough": 3000},
 }
 MANIFEST_TEXT["C07"] = {
     "technique": RM + "wrapper on every PolyhedralTermList.simplify and on IoContract construction; exact z3 oracle for selection, equivalence in context, irredundancy with margin, justified ValueError",
@@ -382,7 +382,7 @@ META["C10"] = {
     "required": ["reach:machine-dict", "reach:machine-file", "reach:strings-exact", "reach:human-file",
                  "reach:folded-strings", "kind:int", "kind:dec4", "kind:float", "corpus_cases"],
     "assumptions": [NUM, TB, "temporary files live in a per-case mkdtemp directory that is removed afterwards"],
-    "soft_s": {"quick": 200, "thorough": 3000},
+    "soft_s": {"quick": 900, "thorough": 3000},
 }
 MANIFEST_TEXT["C10"] = {
     "technique": RM + "the real printers / parsers / file reader and writer executed on generated contracts; exact z3 equivalence with the 4-significant-digit rounding of the original, field-wise identity for the machine form",
@@ -405,7 +405,7 @@ META["C11"] = {
                  "emptiness:gap:empty", "emptiness:gap:nonempty", "emptiness:gap:band", "emptiness:feasible:nonempty",
                  "consistency:refines=True:inL=True:inR=True"],
     "assumptions": [TB, "dyadic data so that pacti's float evaluation is exact"],
-    "soft_s": {"quick": 200, "thorough": 2500},
+    "soft_s": {"quick": 900, "thorough": 2500},
 }
 MANIFEST_TEXT["C11"] = {
     "technique": RM + "contains_behavior / evaluate / is_empty executed at boundary-adjacent dyadic points; exact Fraction evaluation and z3 feasibility as oracle; cross-check with refines",
@@ -429,7 +429,7 @@ META["C16"] = {
                  "fresh-and-back:returned", "sequence:swap_through_temp:returned", "sequence:chain:returned",
                  "term-rename:returned"],
     "assumptions": [NUM, TB, "interface lists compared as sets plus duplicate-freeness"],
-    "soft_s": {"quick": 200, "thorough": 2500},
+    "soft_s": {"quick": 900, "thorough": 2500},
 }
 MANIFEST_TEXT["C16"] = {
     "technique": RM + "rename_variable / rename_variables executed under wrappers; exact z3 comparison with the reference substitution instance, interface prescription per case",
@@ -454,7 +454,7 @@ META["C17"] = {
                  "le:answer=True:counterexample=unsat", "le:answer=False:counterexample=sat", "merge:returned",
                  "merge:result-alternatives"],
     "assumptions": [NUM, TB],
-    "soft_s": {"quick": 200, "thorough": 2500},
+    "soft_s": {"quick": 900, "thorough": 2500},
 }
 MANIFEST_TEXT["C17"] = {
     "technique": RM + "NestedTermList / compound merge executed on generated unions of boxes; z3 disjunction semantics as the oracle",
@@ -476,7 +476,7 @@ META["C18"] = {
                  "slice:polygon6:returned", "slice:polygon8:returned", "slice:segment:returned", "slice:point:returned",
                  "slice:empty:ValueError", "refuse:missing-value:ValueError"],
     "assumptions": [TB, "matplotlib on the Agg backend; Qhull and HiGHS are observed only through the routine's return"],
-    "soft_s": {"quick": 200, "thorough": 2500},
+    "soft_s": {"quick": 900, "thorough": 2500},
 }
 MANIFEST_TEXT["C18"] = {
     "technique": RM + "constraints_to_vertices executed on generated slices; exact rational vertex enumeration as the oracle (set equality, constraint satisfaction, angular order, emptiness)",
@@ -504,7 +504,7 @@ META["C13"] = {
                  "step:parse:ret", "step:string_roundtrip:ret", "step:machine_roundtrip:ret"],
     "assumptions": [TB, "os.fork of a single-threaded interpreter (BLAS threads pinned to 1); Var objects are treated "
                     "as values and may be shared"],
-    "soft_s": {"quick": 240, "thorough": 3000},
+    "soft_s": {"quick": 900, "thorough": 3000},
 }
 MANIFEST_TEXT["C13"] = {
     "technique": RM + "session driver over a shared pool with deep before/after snapshots of every live object, option list and module table; id-graph aliasing check and result mutation; replay of steps in a forked pristine interpreter and at the end of the session",
@@ -539,7 +539,7 @@ META["C05"] = {
     "exhaustive": False,
     "exhaustive_note": ("thorough tier: all outcome scripts for all 1- and 2-variable topologies are enumerated "
                         "completely (lazy depth-first over the observed call sequence)"),
-    "soft_s": {"quick": 240, "thorough": 3300},
+    "soft_s": {"quick": 900, "thorough": 3300},
 }
 MANIFEST_TEXT["C05"] = {
     "technique": RM + "the real generic IoContract executed against a scripted symbolic TermList (fault enumeration over primitive outcomes and interface topologies); recorded axiom trace checked propositionally with z3",
